@@ -283,6 +283,10 @@ def case_strategy(tier):
                 lead = ' ' * draw(st.integers(1, 3))
                 classes.add('leading-blank')
             sid = seg_id()
+            if lead and draw(st.integers(0, 2)) == 0:
+                # only blanks are dropped: a tab or another white-space control character after them belongs to the identifier
+                sid = draw(st.sampled_from([c for c in '\t\x0b\x0c\x1c\x1d\x1e\x1f' if c not in forbidden])) + sid
+                classes.add('leading-blank-then-whitespace-character')
             nel = draw(st.integers(0, 8))
             els = []
             for _ in range(nel):
